@@ -9,3 +9,10 @@ package udpcmsg
 //@ func ParseLocalAddr(oob []byte) (a netip.Addr, err error)
 //@   trusted
 //@   modifies nothing
+//@ func CmsgSize(addr netip.Addr) (n int)
+//@   trusted
+//@   modifies nothing
+//@   ensures 0 <= n && n <= 64
+//@ func CmsgPktInfo(b []byte, addr netip.Addr) (r []byte)
+//@   trusted
+//@   modifies b[0:len(b)]
